@@ -502,7 +502,14 @@ def cmd_setup():
             need.add(('tsan', 'runner'))
         if cfg.get('run_fn') == 'run_c10':
             need.add(('fuzz', 'fuzz'))
-    for fl, b in sorted(need):
+            need.add(('vg', None))
+        if cfg.get('run_fn') == 'run_c19':
+            need.add(('fuzz', 'fuzzbook'))
+    for fl, b in sorted(need, key=str):
+        if b is None:
+            if not build_engine_only(fl):
+                ok = False
+            continue
         if not build(fl, b) and not build(fl, b):  # one retry: a concurrent check may have been writing the same cache entry
             ok = False
     print('setup ' + ('OK' if ok else 'FAILED'))
@@ -1011,6 +1018,126 @@ def valgrind_half(pid, cfg, tier, seed):
                rule='sessions from harness/session.h in record mode (depth <= 3, nodes <= 3000, short time limits, infinite + stop) are fed to the real executable under valgrind; any memcheck error (use of an uninitialised value, invalid access) or abnormal exit that reproduces 3x is a violation; a wait that times out is inconclusive')
     shutil.rmtree(rundir, ignore_errors=True)
     return (1 if viol else 0), cov, viol
+
+
+def fuzz_campaign(pid, exe, tc, seed, corpus, max_len, tag):
+    """libFuzzer jobs (one process each) from a copy of `corpus`; returns (execs, classes, [(artifact copied to replays/, signature, output)], unreproduced)"""
+    jobs = tc['fuzz_jobs']
+    rundir = os.path.join(BUILD, 'tmp', 'fuzz-%s-%d' % (pid, os.getpid()))
+    shutil.rmtree(rundir, ignore_errors=True)
+    os.makedirs(rundir)
+    seeds = sorted(glob.glob(os.path.join(corpus, '*')))
+
+    def job(i):
+        cdir = os.path.join(rundir, 'corpus%d' % i)
+        adir = os.path.join(rundir, 'art%d' % i)
+        os.makedirs(cdir)
+        os.makedirs(adir)
+        if i % 2 == 0:  # half of the jobs start from the seed corpus, the other half from an empty one
+            for sd in seeds:
+                shutil.copy(sd, cdir)
+        stats = os.path.join(rundir, 'stats%d.json' % i)
+        lg = os.path.join(rundir, 'fuzz%d.log' % i)
+        cmd = [exe, cdir, '-runs=%d' % tc['fuzz_runs'], '-seed=%d' % (seed * 1000 + i + 1), '-max_len=%d' % max_len, '-timeout=600', '-rss_limit_mb=6000',
+               '-artifact_prefix=' + adir + '/', '-print_final_stats=1', '-verbosity=0']
+        with open(lg, 'w') as lf:
+            r = subprocess.run(cmd, stdout=lf, stderr=subprocess.STDOUT, env=fuzz_env(rundir, stats))
+        st = None
+        try:
+            st = json.load(open(stats))
+        except Exception:
+            pass
+        arts = [a for a in glob.glob(os.path.join(adir, '*')) if os.path.basename(a).startswith(('crash-', 'leak-'))]
+        return i, r.returncode, st, arts, lg
+    with ThreadPoolExecutor(min(jobs, NCPU)) as ex:
+        res = list(ex.map(job, range(jobs)))
+    execs, classes, viol, unrepro, seen = 0, {}, [], [], set()
+    os.makedirs(os.path.join(ROOT, 'replays'), exist_ok=True)
+    for i, code, st, arts, lg in res:
+        if st:
+            execs += st.get('execs', 0)
+            for k, v in st.get('classes', {}).items():
+                classes[k] = classes.get(k, 0) + v
+        for a in arts:
+            dest = os.path.join(ROOT, 'replays', '%s-%s-%s' % (pid, tag, os.path.basename(a)))
+            shutil.copy(a, dest)
+            fails, last = 0, ''
+            for _ in range(3):
+                r = subprocess.run([exe, dest], stdout=subprocess.PIPE, stderr=subprocess.STDOUT, text=True, errors='replace', env=fuzz_env(rundir), timeout=1200)
+                last = r.stdout
+                fails += r.returncode != 0
+            m = re.search(r'C19 fuzz: (book:[\w]+)', last)
+            sig = m.group(1) if m else crash_signature(last)
+            if fails < 3:
+                unrepro.append(dict(replay=dest, reproduced=fails, signature=sig))
+            elif sig not in seen:
+                seen.add(sig)
+                viol.append((dest, sig, last))
+    shutil.rmtree(rundir, ignore_errors=True)
+    return execs, classes, viol, unrepro
+
+
+def run_c19(pid, cfg, tier, seed, t0):
+    rc = run_rc_property(pid, cfg, tier, seed, t0)
+    ev_path = os.path.join(ROOT, 'evidence', pid + '.json')
+    tc = cfg[tier]
+    if rc != 0 or not os.path.exists(ev_path) or not tc.get('fuzz_jobs'):
+        return rc
+    exe = build('fuzz', 'fuzzbook')
+    if not exe:
+        return 2
+    execs, classes, viol, unrepro = fuzz_campaign(pid, exe, tc, seed, os.path.join(ROOT, 'corpus', 'c19'), 4096, tier)
+    known = [k for k in load_known() if k.get('property') == pid and k.get('status') == 'known']
+    fresh = []
+    for dest, sig, out in viol:
+        matched = [k for k in known if k.get('signature') and re.search(k['signature'], sig + '\n' + out)]
+        if matched:
+            print('KNOWN-FINDING: property=%s %s' % (pid, matched[0].get('what', '')))
+        else:
+            fresh.append((dest, sig, out))
+    ev = json.load(open(ev_path))
+    cov = ev['coverage']
+    cov['libfuzzer_half'] = dict(flavour='fuzz', target='harness/fuzz_book.cpp', jobs=tc['fuzz_jobs'], runs_per_job=tc['fuzz_runs'], executions=execs, classes=classes, unreproduced=unrepro,
+                                 rule='coverage-guided mutation of book files (records kept raw or pinned to a pooled position and one of its legal moves, truncated tails); oracles inside the target: loaded records == complete records of the file, contains(), best = a maximal-weight record, random = a positive-weight record; half of the jobs start from corpus/c19, half from an empty corpus; only crash artifacts that reproduce 3x count')
+    cov['evaluations'] = cov['evaluations'] + execs
+    if fresh:
+        ev['violations'] = len(fresh)
+        cov['violation_replays'] = [f[0] for f in fresh]
+    ev['wall_s'] = round(time.time() - t0, 2)
+    json.dump(ev, open(ev_path, 'w'), indent=1)
+    if fresh:
+        for dest, sig, out in fresh:
+            log('--- libFuzzer artifact (%s) ---\n%s' % (sig, out[-3000:]))
+            print('VIOLATION property=%s replay=%s' % (pid, os.path.relpath(dest, ROOT)))
+        return 1
+    if execs < tc['fuzz_jobs'] * tc['fuzz_runs'] * 0.5:
+        log('GENERATOR-HEALTH GATE FAILED for %s libFuzzer half: %d executions of %d planned' % (pid, execs, tc['fuzz_jobs'] * tc['fuzz_runs']))
+        return 2
+    print('OK property=%s libfuzzer-half executions=%d pinned_lookups=%d' % (pid, execs, classes.get('book:pinned_lookups', 0)))
+    return 0
+
+
+def replay_c19(pid, cfg, path):
+    head = open(path, 'rb').read(16)
+    if head.startswith(b'# property'):
+        exe = build('asan', 'runner')
+        if not exe:
+            return 2
+        c, o = replay_once(exe, 'C19', path)
+    else:
+        exe = build('fuzz', 'fuzzbook')
+        if not exe:
+            return 2
+        rundir = os.path.join(BUILD, 'tmp', 'fuzz-replay-%d' % os.getpid())
+        os.makedirs(rundir, exist_ok=True)
+        r = subprocess.run([exe, path], stdout=subprocess.PIPE, stderr=subprocess.STDOUT, text=True, errors='replace', env=fuzz_env(rundir), timeout=1200)
+        shutil.rmtree(rundir, ignore_errors=True)
+        c, o = r.returncode, r.stdout
+    print(o[-4000:])
+    if c != 0:
+        print('VIOLATION property=%s replay=%s' % (pid, path))
+        return 1
+    return 0
 
 
 STARTUP_SESSIONS = [
